@@ -24,8 +24,8 @@ type srcFile struct {
 }
 
 var (
-	c23CorpusOnce  sync.Once
-	corpusFiles []srcFile
+	c23CorpusOnce sync.Once
+	corpusFiles   []srcFile
 )
 
 func c23GorootSrc() string {
